@@ -288,7 +288,7 @@ def main(tier: str, seed: int) -> int:
     n = 1600 if tier == "quick" else 40000
     wd = os.path.join(core.work_dir(), "c11")
     cases = [{"rng_seed": f"c11-{seed}-{i}", "count": n // P, "workdir": wd} for i in range(P)]
-    results, notes = core.run_workers("checks.c11", "run_chunk", cases)
+    results, notes = core.run_workers("checks.c11", "run_chunk", cases, case_wall=5000, timeout=6000)
     for nt in notes:
         chk.note_inconclusive(nt)
     distinct = 0
